@@ -52,6 +52,11 @@ class StepFunc(abc.ABC):
 
         p = np.copy(x)
 
+        # clip in the working precision: bounds that are not representable in
+        # single precision would otherwise be overshot by the rounded result
+        lb = lb.astype(x.dtype, copy=False)
+        ub = ub.astype(x.dtype, copy=False)
+
         p[active_set] = np.clip(x[active_set], lb[active_set], ub[active_set])
 
         assert (lb[active_set] <= p[active_set]).all()
